@@ -161,6 +161,7 @@ func GenC07(seed, index uint64) *Workload {
 func HotKinds() []string {
 	var ks []string
 	ks = append(ks, FuncFamilies...)
+	ks = append(ks, HotOnlyFamilies...)
 	for _, f := range BigFamilies[:6] {
 		ks = append(ks, "big:"+f)
 	}
